@@ -30,7 +30,9 @@ MANIFEST = {
             'transmitted colour, duration and delay must agree within one raw '
             'unit / 1 ms, and the nine settings printed around every switch '
             'must follow the rewrite table. Chains are enumerated, register '
-            'grids sampled.',
+            'grids sampled.'
+            ' In a quarter of the cases the registers are filled by expre'
+            'ssions instead of constants.',
     'note': 'Trusted: rational conversion oracle (bvf/oracle.py). Colours are '
             'compared componentwise (hue on the circle, ignored when '
             'saturation or brightness is 0) or, when rgb is involved, by RGB '
